@@ -96,7 +96,7 @@ func runC04(e *Env) {
 
 func c04Case(t *T) {
 	r := t.R
-	g := &progGen{maxDepth: 4, dynamic: true, ctrl: true, styles: true}
+	g := &progGen{maxDepth: 4, dynamic: true, ctrl: true, styles: true, bare: true}
 	p := GenProgram(r, g)
 	armPanics(p) // enables the X-Nest header: a second request served while the first is inside a handler
 	var failing []string
@@ -464,7 +464,7 @@ func runC12(e *Env) {
 
 func c12Case(t *T) {
 	r := t.R
-	g := &progGen{maxDepth: 5, dynamic: true, ctrl: true, probes: true, styles: true, strict: chance(t.R, 1, 5)}
+	g := &progGen{maxDepth: 5, dynamic: true, ctrl: true, probes: true, styles: true, bare: true, strict: chance(t.R, 1, 5)}
 	p := GenProgram(r, g)
 	var failing []string
 	t.Describe(func() any {
